@@ -92,7 +92,7 @@ class Meter:
 
 
 def _alarm(signum, frame):
-    raise HarnessAbort('inconclusive: a single case ran for more than 60 s wall clock')
+    raise HarnessAbort('inconclusive: a single case ran for more than 120 s wall clock')
 
 
 class Records:
@@ -174,7 +174,7 @@ def run_one(data, cfg, ctx, n=None, limit=None, meter=True):
     limit = limit or (A_ + B_ * n + C_ * n * n)
     saved_mode = cssutils.log.raiseExceptions
     old = signal.signal(signal.SIGALRM, _alarm)
-    signal.alarm(60)
+    signal.alarm(120)
     try:
         with Records() as rec, (Meter(limit) if meter else NoMeter()) as meter:
             try:
